@@ -172,7 +172,8 @@ func (d *Driver) runShard(shard, nw int, m *Merged, mu *sync.Mutex) {
 		ef, _ := os.Create(errf)
 		cmd.Stderr = ef
 		cmd.Stdout = ef
-		cmd.Env = append(os.Environ(), "VERIF_DIR="+d.VerifDir, "VERIF_TMP="+d.TmpDir, "VERIF_BIN="+d.Bin)
+		cmd.Env = append(os.Environ(), "VERIF_DIR="+d.VerifDir, "VERIF_TMP="+d.TmpDir, "VERIF_BIN="+d.Bin,
+			"GOGC=400", "GOMAXPROCS=2")
 		if p.Env != nil {
 			cmd.Env = append(cmd.Env, p.Env(d.Tier)...)
 		}
